@@ -56,9 +56,13 @@ func (fc *FnCtx) assignConv(v Val, to types.Type) Val {
 		}
 		return fc.coerce(v, to)
 	}
+	if _, toTP := to.(*types.TypeParam); toTP {
+		return Val{T: v.T, Ty: to, K: v.K} // a value of type parameter T stays in T's own sort
+	}
 	if _, isIface := to.Underlying().(*types.Interface); isIface {
-		if _, fromIface := v.Ty.Underlying().(*types.Interface); !fromIface {
-			return fc.box(v, to)
+		_, fromTP := v.Ty.(*types.TypeParam)
+		if _, fromIface := v.Ty.Underlying().(*types.Interface); !fromIface || fromTP {
+			return fc.box(v, to) // also boxes a type-parameter value (its own sort) into the interface sort
 		}
 		return Val{T: v.T, Ty: to}
 	}
